@@ -33,6 +33,42 @@ CHECKS = {
     note='Trusted: TLC, MockStorage behind a recording wrapper, the height map (real heights between mapped ones are filled '
          'but never queried), header identity by hash. Sequences are bounded (<=14 headers created, heights <=13 in model units).',
     technique='TLA+ refinement model (contract vs code layer) + TLC exhaustive check + trace validation of replayed call sequences at real scale'),
+ 'C01': dict(
+    engine='ChainSync',
+    category='model_checking',
+    text='TLA+ specification of header/block synchronisation (spec/ChainSync.tla: header handler per header, block handler, the three '
+         'critical sections of block processing, check(), locator, time-out reconnect, process restart, Bitcoin peer, network). TLC checks '
+         'Convergence (liveness, fairness per message/request) on the as-is model in the calm environment and the safety invariants with '
+         'the repair switches of the known findings on. TLC-simulated behaviours (calm, racy, reordering+duplication; 7- and 14-block trees; '
+         'restarts) and target-state witnesses are replayed step by step on the real handlers/check()/ProcessBlock (parked at a natural gate), '
+         'each run is driven to quiescence including time-outs, and TLC evaluates Convergence/InSyncNotifyOK on the recorded real states '
+         'and validates every recorded step against the specification.',
+    design_ref='DESIGN.md 5.3, 6 (C01), 7',
+    note='Verdict only from real-code traces. Known findings F1, F23, F24, F27, F28 (known_findings.txt) are identified by history predicates '
+         '(checks/signatures.py). Liveness is exhaustive only for the calm environment and a 7-block tree; handlers atomic per message.',
+    technique='TLA+ spec + TLC (safety, liveness) + schedule replay on real code with trace validation'),
+ 'C02': dict(
+    engine='ChainSync',
+    category='model_checking',
+    text='Same specification and replay driver as C01 with adversarial input from the trusted connection (arbitrary short headers lists incl. an '
+         'unknown header, block messages with matching or non-matching body, requested or not, duplicates, reordering). TLC checks Linked, '
+         'NoDupChain, GrowsAtTip on the model (known findings repaired); on the real code after every step the chain is re-read through '
+         'Hash(h) for every height and Height/Contains for every block, and Linked, NoDupChain, GrowsAtTip, Inverse, AnnouncedContiguous are '
+         'evaluated by TLC on the recorded states.',
+    design_ref='DESIGN.md 5.3, 6 (C02)',
+    note='Known finding F2 (revert while a block is between tip check and add) identified by a history predicate. Adversarial headers lists are '
+         'bounded to two headers in the exhaustive model.',
+    technique='TLA+ spec + TLC invariants/action properties + adversarial schedule replay with trace validation'),
+ 'C12': dict(
+    engine='ChainSync',
+    category='model_checking',
+    text='Chain part of C12: block messages of an untrusted connection (matching and non-matching body for outstanding requests) are delivered '
+         'through the real untrusted message handlers into runs of a well-behaved trusted peer; the chain invariants must hold and every run must '
+         'still converge. TLC checks the same on the model (safety, and Convergence in the calm environment).',
+    design_ref='DESIGN.md 5.11, 6 (C12)',
+    note='Covers the untrusted block path (the stall F4, fixed). Untrusted headers verification, inv and tx (vouching) are covered by the '
+         'TxPipeline/TxRequests checks where built; see DESIGN.md.',
+    technique='TLA+ spec + TLC + schedule replay through the real untrusted handlers'),
 }
 
 NOT_YET = {}
